@@ -145,8 +145,16 @@ func runCheck(o checkOpts) (code int) {
 		// Second attempt on the normal form with tail calls inlined (split functions glued together again). The
 		// normalisation preserves behaviour, so a clean result there decides the property for the program as written;
 		// anything else leaves the first result standing.
-		for li, level := range []string{rootPath, replPath, "all", rootPath, "all"} {
-			normInline, normInlineStmts = level, li >= 3
+		// levels: (functions inlined in, statement-level too, closures inlined in)
+		type nf struct {
+			fn    string
+			stmts bool
+			cl    string
+		}
+		for li, lv := range []nf{{rootPath, false, ""}, {replPath, false, ""}, {"all", false, ""}, {rootPath, true, ""}, {"all", true, ""},
+			{"", false, rootPath}, {"", false, replPath}, {"", false, "all"}, {rootPath, true, rootPath}, {"all", true, "all"}} {
+			level := fmt.Sprintf("functions:%s closures:%s", lv.fn, lv.cl)
+			normInline, normInlineStmts, normInlineClosures = lv.fn, lv.stmts, lv.cl
 			lineOrigins = map[string][]lineOrigin{}
 			w2 := loadWorld(o.repo, overlay, "")
 			if len(lineOrigins) == 0 {
@@ -163,14 +171,14 @@ func runCheck(o checkOpts) (code int) {
 				}
 			}
 			if a2.clean(o.verif) {
-				a2.Notes = append(a2.Notes, fmt.Sprintf("decided on the normal form with tail calls inlined in %s (%d file(s) rewritten): the program as written has functions split in a way the rules do not follow", level, len(lineOrigins)))
+				a2.Notes = append(a2.Notes, fmt.Sprintf("decided on the normal form with inlining (%s; %d file(s) rewritten): the program as written has functions split in a way the rules do not follow", level, len(lineOrigins)))
 				a = a2
 				break
 			}
 		}
 		if a.W == w {
 			// keep reporting against the program as written
-			normInline, normInlineStmts = "", false
+			normInline, normInlineStmts, normInlineClosures = "", false, ""
 			lineOrigins = map[string][]lineOrigin{}
 			loadWorld(o.repo, overlay, "") // restores the package-level tables built at load time
 		}
